@@ -46,6 +46,12 @@
 (* (PDFDocument._cached_objs) for these object numbers: which version of   *)
 (* the object it holds.  The current object 18 is revision 2's, whatever   *)
 (* was fetched before.                                                     *)
+(* The two pages of dC SHARE every indirect object the interpreter walks:   *)
+(* /Contents is one indirect array of two streams, /Resources one indirect *)
+(* dictionary inherited from the /Pages node, its /Font dictionary is      *)
+(* indirect, and both paint the same form /Fm1 - so both pages list F1 F2  *)
+(* F3 and show the same codes.  calls[s].ca says whether the /Contents     *)
+(* array in the document's object cache is still what the file says.       *)
 (* PER PAGE (PDFPageInterpreter.fontmap / xobjmap / csmap = calls[s].fm /  *)
 (* .xo / .cs): re-initialised by AInitResources for EVERY page.            *)
 (*                                                                         *)
@@ -69,7 +75,7 @@
 (*   AGetEncodingShared  AGetEncodingCopyOnWrite  ADifferencesAssign       *)
 (*   ADifferencesPop  AParseToUnicode                                      *)
 (*   ACMapCacheFill  ACMapCacheHit  AUMapCacheFill  AUMapCacheHit          *)
-(*   AResolveAllInPlace  AFontCacheFill  ARender                           *)
+(*   AResolveAllInPlace  AFontCacheFill  AExecuteContents  ARender         *)
 (*   AUseCMapCopy  AAddCode2Cid                                            *)
 (*                                                                         *)
 (* DEVIATION SWITCHES (the dangerous alternatives; Dev = {} is the design):*)
@@ -82,6 +88,9 @@
 (*                     are entered into the document's object cache: a     *)
 (*                     member that a later revision redefines is then      *)
 (*                     shadowed by its stale version                       *)
+(*   ContentsArrayConsumed  the content parser takes the streams OUT of the*)
+(*                     /Contents array (pop) - the array is the cached     *)
+(*                     object itself: later pages sharing it are empty     *)
 (*   InitResourcesEarlyReturn  init_resources returns for an empty         *)
 (*                     /Resources BEFORE it resets fontmap / xobjmap /     *)
 (*                     csmap: the page keeps the maps of the page the same *)
@@ -166,12 +175,14 @@ ToUni0(d, o) == [c \in Codes |-> IF d = "dA" /\ o = 6 THEN (IF c = 1 THEN "T" EL
 \* page 1 lists F1 F2 and shows codes 1 2 with each; page 2 lists F1 F3 and shows 2 1 with F1, 1 2 with F3
 \* ... except page 2 of dB: its /Resources dictionary is empty, it shows 2 1 with the NAME /F1 only
 HasResources(d, p) == ~(d = "dB" /\ p = 2)
-Shows(d, p) == IF p = 1 THEN << <<5, 1>>, <<5, 2>>, <<6, 1>>, <<6, 2>> >>
+SharedPages(d) == d = "dC"     \* both pages refer to the same /Contents array, /Resources, /Font dictionary and form
+Shows(d, p) == IF SharedPages(d) THEN << <<5, 1>>, <<5, 2>>, <<6, 1>>, <<6, 2>>, <<18, 1>>, <<18, 2>> >>
+               ELSE IF p = 1 THEN << <<5, 1>>, <<5, 2>>, <<6, 1>>, <<6, 2>> >>
                ELSE IF HasResources(d, p) THEN << <<5, 2>>, <<5, 1>>, <<18, 1>>, <<18, 2>> >> ELSE << <<5, 2>>, <<5, 1>> >>
-FontSeq(d, p) == IF p = 1 THEN <<5, 6>> ELSE IF HasResources(d, p) THEN <<5, 18>> ELSE <<>>
-DefinesForm(d, p) == d = "dB" /\ p = 1    \* /XObject << /Fm1 .. >> in the page's resources
-UsesForm(d, p)    == d = "dB"             \* /Fm1 Do in the page's content
-HasInline(d, p) == p = 2                  \* an inline image (BI .. ID .. EI)
+FontSeq(d, p) == IF SharedPages(d) THEN <<5, 6, 18>> ELSE IF p = 1 THEN <<5, 6>> ELSE IF HasResources(d, p) THEN <<5, 18>> ELSE <<>>
+DefinesForm(d, p) == (d = "dB" /\ p = 1) \/ SharedPages(d)   \* /XObject << /Fm1 .. >> in the page's resources
+UsesForm(d, p)    == d = "dB" \/ SharedPages(d)              \* /Fm1 Do in the page's content
+HasInline(d, p) == p = 2 \/ SharedPages(d)                   \* an inline image (BI .. ID .. EI)
 HasTie(d, p)    == d = "dB" /\ p = 1      \* text boxes at pairwise equal distances: the grouping order needs a tie-break
 
 \* ------------------------------------------------------------------ reference semantics: what a fresh process returns
@@ -217,6 +228,8 @@ NoD9 == [dec |-> 0, tu |-> EmptyStr]
 Free == [st |-> "free", doc |-> "", caching |-> FALSE, pages |-> {}, kind |-> "", atomic |-> FALSE,
          fonts |-> NoFonts, d9 |-> NoD9, done |-> {}, cur |-> 0, pc |-> "", todo |-> <<>>,
          fm |-> NoFonts, bld |-> NoFont, dec |-> 0, dk |-> 0, csShared |-> FALSE, cs |-> PristineCS, xo |-> FALSE,
+         ca |-> TRUE,      \* the /Contents array held in the document's object cache is as parsed (all its streams are there)
+         ex |-> TRUE,      \* the content streams of the current page were found and executed
          oc |-> [o \in StmMembers |-> ""]]      \* _cached_objs for the object-stream members: "" | "new" | "old" (stale)
 
 Init == /\ base = [enc |-> PristineEnc, cs |-> PristineCS]
@@ -519,9 +532,19 @@ PageResult(s) ==
            ELSE IF "TieBreakByAddress" \in Dev /\ heap # 0 THEN "address-order" ELSE "creation-order"]
 
 \* execute the content stream, lay the page out, yield it
-ARender ==
+\* PDFPageInterpreter.execute(list_value(page.contents)): PDFContentParser reads the streams of the /Contents array one
+\* after the other BY INDEX.  page.contents is the resolved array itself - with caching on the very list object in the
+\* document's object cache, which the other page of dC gets too.  Dangerous alternative: take the streams out of the list.
+AExecuteContents ==
   /\ Micro("font") /\ Me.todo = <<>>
-  /\ LET r == PageResult(running)
+  /\ LET sharedCached == SharedPages(Me.doc) /\ Me.caching IN
+     SetMe([Me EXCEPT !.pc = "render", !.ex = (~sharedCached \/ Me.ca),
+                      !.ca = IF sharedCached /\ "ContentsArrayConsumed" \in Dev THEN FALSE ELSE @])
+  /\ last' = NoLast /\ UNCHANGED <<base, cmapc, umapc, interned, heap, shared, running, ncalls, client, sched>>
+
+ARender ==
+  /\ Micro("render")
+  /\ LET r == IF Me.ex THEN PageResult(running) ELSE NoRes      \* no content stream found: an empty page
          done == Me.done \cup {Me.cur}
          finished == (Me.atomic \/ AutoClose) /\ Me.pages \ done = {} IN
        /\ last' = [valid |-> TRUE, doc |-> Me.doc, page |-> Me.cur, res |-> r]
@@ -554,7 +577,7 @@ Step  == \/ ADocOpen \/ APageStart \/ AInitResources \/ AInitColorSpacesCopy
          \/ AFontCacheHit \/ AFontMiss \/ AObjCacheHit \/ AObjStmParse \/ AObjDirectParse \/ AGetFontSpec \/ AGetObjParsed \/ ADecipherAllInPlace \/ ACopyDescendantSpec
          \/ AGetEncodingShared \/ AGetEncodingCopyOnWrite \/ ADifferencesAssign \/ ADifferencesPop \/ AParseToUnicode
          \/ ACMapCacheFill \/ ACMapCacheHit \/ AUMapCacheFill \/ AUMapCacheHit
-         \/ AResolveAllInPlace \/ AFontCacheFill \/ ARender
+         \/ AResolveAllInPlace \/ AFontCacheFill \/ AExecuteContents \/ ARender
          \/ AUseCMapCopy \/ AAddCode2Cid
 Next0 == Sched \/ Step
 Spec == Init /\ [][Next0]_vars
@@ -580,7 +603,7 @@ DecipheredOnce == \A s \in 1..MaxLive : calls[s].d9.dec \in {0, 1}
 \* parsed object stream never shadows a newer definition
 ObjCacheNewest == \A s \in 1..MaxLive : \A m \in StmMembers : calls[s].oc[m] \in {"", "new"}
 \* a cached object is what parsing the file gives: nothing was written into it
-CachedObjectsAsParsed == \A s \in 1..MaxLive : calls[s].d9.tu = EmptyStr
+CachedObjectsAsParsed == \A s \in 1..MaxLive : calls[s].d9.tu = EmptyStr /\ calls[s].ca
 \* the shared base tables never change: no entry is assigned, none is removed
 SharedTablesImmutable == [][base' = base]_vars
 \* caches only grow: an entry, once present, is never modified; interned names keep their identity
